@@ -492,7 +492,7 @@ class Eval:
             v = self.screen.subset(self.mask(tree[1]))
         elif op == "F":
             if self.foreign is None:
-                self.foreign = S.build(self.raw)
+                self.foreign = build_parent(self.raw)
             v = self.foreign.subset(self.mask(tree[1]))
         elif op == "o":
             v = self.screen.subset_observed()
